@@ -191,8 +191,9 @@ public:
     constexpr range_t& operator-=(const range_t& o)
     {
         assert(!o.empty());
-        start -= o.last();
-        finish -= o.first();
+        const T lower = o.first(), upper = o.last();  // o may be *this
+        start -= upper;
+        finish -= lower;
         return *this;
     }
 
